@@ -1,6 +1,8 @@
 package props
 
 import (
+	"strconv"
+	"fmt"
 	"go/token"
 	"strings"
 
@@ -299,7 +301,9 @@ func checkC16(e *Env) {
 	e.R.Floor("ITER", 6)
 	e.R.Floor("GATE", 13)
 	e.R.Floor("FORALL", 3)
+	charClassTable(e)
 	e.R.Floor("TABLE", 5)
+	e.R.Floor("CLASS", 5)
 	_ = load.FuncName
 }
 
@@ -375,4 +379,73 @@ func appliedToBytes(c *ssa.CallCommon, ai int) bool {
 		}
 	}
 	return calls > 0
+}
+
+// charClassTable: each character-class function is folded for every one of
+// the 256 byte values and compared with the sets of the grammar
+// (draft-ietf-httpbis-header-structure: lcalpha, ALPHA, DIGIT, key and token
+// characters).  A class function that cannot be folded (a table filled at
+// init time, seed C16-g: a 128-entry table indexed with c&0x7f, so 0xE1
+// counted as 'a') is reported as undecided.
+func charClassTable(e *Env) {
+	lc := func(c int) bool { return c >= 'a' && c <= 'z' }
+	al := func(c int) bool { return lc(c) || (c >= 'A' && c <= 'Z') }
+	dg := func(c int) bool { return c >= '0' && c <= '9' }
+	in := func(c int, set string) bool {
+		for _, x := range []byte(set) {
+			if int(x) == c {
+				return true
+			}
+		}
+		return false
+	}
+	classes := []struct {
+		fn   string
+		want func(int) bool
+	}{
+		{"signedexchange/structuredheader.isDigit", dg},
+		{"signedexchange/structuredheader.isLCAlpha", lc},
+		{"signedexchange/structuredheader.isAlpha", al},
+		{"signedexchange/structuredheader.isKeyChar", func(c int) bool { return lc(c) || dg(c) || in(c, "_-") }},
+		{"signedexchange/structuredheader.isTokenChar", func(c int) bool { return al(c) || dg(c) || in(c, "_-.:%*/") }},
+	}
+	for _, cl := range classes {
+		fn := e.fn(cl.fn)
+		if fn == nil || len(fn.Params) != 1 {
+			continue
+		}
+		pat := "param:" + fn.Params[0].Name()
+		var wrong, undecided []string
+		for c := 0; c < 256; c++ {
+			ctx := gate.New(e.P, e.P.VTA(), assumeVal(pat, strconv.Itoa(c)).assume...)
+			ex := ctx.ExitsUnder(fn, 0)
+			want := "const:false"
+			if cl.want(c) {
+				want = "const:true"
+			}
+			switch {
+			case len(ex) == 1 && ex[0] == want:
+			case len(ex) == 1 && (ex[0] == "const:true" || ex[0] == "const:false"):
+				wrong = append(wrong, fmt.Sprintf("0x%02x", c))
+			default:
+				undecided = append(undecided, fmt.Sprintf("0x%02x", c))
+			}
+		}
+		key := "char-class:" + cl.fn[strings.LastIndex(cl.fn, ".")+1:]
+		switch {
+		case len(wrong) > 0:
+			e.R.Fail("CLASS", key, e.P.Pos(fn.Pos()), "the class differs from the grammar for bytes "+strings.Join(firstN(wrong, 12), " "))
+		case len(undecided) > 0:
+			e.R.Undecided("CLASS", key, e.P.Pos(fn.Pos()), fmt.Sprintf("the class function cannot be folded to a constant for %d byte values (e.g. %s): its verdict depends on something other than comparisons of its argument", len(undecided), strings.Join(firstN(undecided, 6), " ")))
+		default:
+			e.R.OK("CLASS", key, e.P.Pos(fn.Pos()), "agrees with the grammar's set for all 256 byte values")
+		}
+	}
+}
+
+func firstN(s []string, n int) []string {
+	if len(s) > n {
+		return s[:n]
+	}
+	return s
 }
